@@ -260,7 +260,7 @@ func init() {
 				return true
 			})
 		}
-		// proposed repair of F62: onWrite ignores the index part of a notification that arrives late (lastRec <= last.lastRec in the
+		// proposed repair of F85: onWrite ignores the index part of a notification that arrives late (lastRec <= last.lastRec in the
 		// skip test) and never lowers Recs (the assignment is guarded by a comparison of Recs with lastRec+1)
 		skipsLate, recsGuarded := false, false
 		if fd := funcDecl(fc, "cindex", "onWrite"); fd != nil {
@@ -294,7 +294,7 @@ func init() {
 				return true
 			})
 		}
-		// proposed repair of F63: sortedChunks.apply hands what lightFill has read now to a known entry that could not be filled
+		// proposed repair of F86: sortedChunks.apply hands what lightFill has read now to a known entry that could not be filled
 		// before (an assignment to the Recs of an element of its argument)
 		refills := false
 		if fd := funcDecl(fc, "sortedChunks", "apply"); fd != nil && len(fd.Type.Params.List) > 0 && len(fd.Type.Params.List[0].Names) > 0 {
@@ -570,9 +570,9 @@ func init() {
 		l.p("def staleDropOnlyForSnapshotEntries : Bool := %s", leanBool(dropOnlyLoaded && onWriteLoadedMiddle))
 		l.p("/-- `syncChunks`' second critical section keeps a known chunk that is newer than the last chunk of the caller's list (repair of F53); false: every known chunk missing from the list is forgotten -/")
 		l.p("def syncChunksKeepsNewerChunks : Bool := %s", leanBool(keepsNewer))
-		l.p("/-- `syncChunks` fills a KNOWN entry that accounts for no record (`Recs = 0`: empty chunk, or a `lightFill` that could not read) when the chunk has records now (proposed repair of F63); false: what `lightFill` reads for a known entry is thrown away by the second `apply` -/")
+		l.p("/-- `syncChunks` fills a KNOWN entry that accounts for no record (`Recs = 0`: empty chunk, or a `lightFill` that could not read) when the chunk has records now (proposed repair of F86); false: what `lightFill` reads for a known entry is thrown away by the second `apply` -/")
 		l.p("def syncChunksRefillsUnfilledEntries : Bool := %s", leanBool(refills))
-		l.p("/-- `onWrite` leaves the index alone for a notification that arrives late (`lastRec <= last.lastRec`), and never lowers `Recs` (proposed repair of F62); false: the late interval is merged behind the newer point and `Recs` goes down -/")
+		l.p("/-- `onWrite` leaves the index alone for a notification that arrives late (`lastRec <= last.lastRec`), and never lowers `Recs` (proposed repair of F85); false: the late interval is merged behind the newer point and `Recs` goes down -/")
 		l.p("def onWriteSkipsLateNotification : Bool := %s", leanBool(skipsLate))
 		l.p("def onWriteRecsNeverDecrease : Bool := %s", leanBool(recsGuarded))
 		l.p("/-- `lightFill` treats `MaxTs > 0` as \"hull known\" -/")
